@@ -24,9 +24,21 @@ func init() {
 	reg(&PropDef{
 		ID:    "C20",
 		Title: "Price daemon serves the true median of fresh exchange prices under concurrency",
-		Funcs: fcNP("lib.Median[uint64]", "lib.Median[uint32]", "lib.Median[int64]", "lib.Median[int32]"),
+		Funcs: append(fcNP("lib.Median[uint64]", "lib.Median[uint32]", "lib.Median[int64]", "lib.Median[int32]",
+			"daemons/pricefeed/types.PriceTimestamp.UpdatePrice", "daemons/pricefeed/types.PriceTimestamp.GetValidPrice"),
+			fc("daemons/server/types/pricefeed.MarketToExchangePrices.UpdatePrices", "daemons/server/types/pricefeed.MarketToExchangePrices.GetValidMedianPrices",
+				"daemons/server/types/pricefeed.ExchangeToPrice.UpdatePrices", "daemons/server/types/pricefeed.ExchangeToPrice.GetValidPrices")...),
+		LockEntries: true,
+		Assumptions: []string{
+			"lock discipline implies atomicity: when every access to the cache's guarded fields (guarded MarketToExchangePrices.marketToExchangePrices, ExchangeToPrice.exchangeToPriceTimestamp) happens while the executing goroutine holds the cache mutex, concurrent calls of the public methods are serialised and free of data races, so the sequential contracts describe every interleaving. This mutual-exclusion meta-argument (and sync.Mutex itself) is trusted; the verifier discharges the discipline: guard.* obligations at every access, lock.* obligations at every Lock/Unlock, caller_holds_the_cache_lock at every call of an ExchangeToPrice method",
+			"one ghost flag locked() for the cache mutex: the identity of the mutex instance is not tracked (the server holds one MarketToExchangePrices); objects allocated in the function at hand are not yet shared and need no lock",
+			"exported methods of MarketToExchangePrices are entered with no lock held by the calling goroutine (default entry contract for methods without a written one)",
+			"PriceTimestamp fields are reached only through ExchangeToPrice (a new direct access path from another package is not swept)",
+		},
 		NotDecided: []string{
-			"the schedule quantifier (all interleavings, data-race freedom as such): no concurrency in the VC semantics",
+			"the schedule quantifier as such (all interleavings): no concurrency in the VC semantics; it is reduced to the lock discipline above",
+			"that GetValidPrices / GetValidMedianPrices collect exactly the fresh prices of a market: they range over Go maps (order-dependent append; the multiset view is not expressible in the contract language); freshness per entry (GetValidPrice), forward-only update per entry (UpdatePrice) and the median of the collected list (lib.Median) are decided",
+			"nil-safety of the cache's nested maps (stored map values are non-nil: no contract syntax for Go map invariants); those panic obligations are reported undecided and not claimed",
 		},
 	})
 	reg(&PropDef{
@@ -297,12 +309,16 @@ func init() {
 	reg(&PropDef{
 		ID:    "C15",
 		Title: "Bridge byte encodings agree with what the EVM contracts compute and verify",
-		Funcs: fcNP("x/bridge/keeper.Keeper.SetBridgeValidatorParams", "x/bridge/keeper.Keeper.CalculateValidatorSetCheckpoint"),
+		Funcs: fcNP("x/bridge/keeper.Keeper.SetBridgeValidatorParams", "x/bridge/keeper.Keeper.CalculateValidatorSetCheckpoint",
+			"x/bridge/keeper.Keeper.EncodeOracleAttestationData", "x/bridge/keeper.Keeper.GetDepositQueryId", "x/bridge/keeper.Keeper.GetWithdrawalQueryId",
+			"x/bridge/keeper.Keeper.GetWithdrawalReportValue"),
 		Assumptions: []string{
 			"total validator power below 2^63 (the threshold is computed as total*2/3 in uint64)",
+			"go-ethereum's abi.Arguments.Pack is an uninterpreted function abi_pack(type names, values) of the list of Solidity type names (abi.NewType) and the list of packed values; crypto.Keccak256 is an uninterpreted function; hex.DecodeString yields hexdec(s); copying into a fresh [32]byte yields pad(content, 32). The contracts therefore decide that the chain packs exactly the fields, in the order and with the Solidity types the bridge contracts use (abi.encode(...) in the property text), not the byte layout abi.encode itself produces (go-ethereum trusted to implement the ABI specification)",
+			"z := new(big.Int); z.SetUint64(x) rebinds z (same basic block); other *big.Int receivers keep result-only semantics",
 		},
 		NotDecided: []string{
-			"every byte encoding (validator-set hash, domain-separated checkpoint, attestation digest, deposit/withdrawal query ids, withdrawal report value) against the Solidity contracts: go-ethereum's abi.Arguments.Pack and the hand-rolled dynamic-array encoding work on byte strings and reflection, which this verifier does not model; only the power threshold (two thirds of total power) and the mutual consistency of the values stored with a checkpoint (hash, threshold, timestamp, index) are decided",
+			"the validator-set hash (hand-rolled dynamic-array encoding with binary.BigEndian.PutUint64 over byte slices) against the Solidity abi.encode(Validator[]): byte-level layout is outside the encoding model; only the power threshold (two thirds of total power), the checkpoint digest's field list and the mutual consistency of the values stored with a checkpoint (hash, threshold, timestamp, index) are decided",
 			"the signature digest convention (sha-256 of the digest, recoverable secp256k1)",
 		},
 	})
